@@ -288,7 +288,7 @@ struct C15 : Profile {
                 H.check_value(lv, it->second, "variable " + it->first + " read through the API");
                 leases.push_back({ci, lv, it->second, "variable " + it->first});
                 break; }
-      case 10: { if (H.exps.size() > 8) break; int ci = pick_ctx(a); MCtx& c = H.ctxs[ci]; size_t k = b % ECAT.size(); const ExprCat& e = ECAT[k]; if (!e.usable(c)) break;
+      case 10: { if (H.exps.size() > 8) break; int ci = pick_ctx(a); MCtx& c = H.ctxs[ci]; std::vector<size_t> ue; for (size_t i = 0; i < ECAT.size(); ++i) if (ECAT[i].usable(c)) ue.push_back(i); if (ue.empty()) break; size_t k = ue[b % ue.size()]; const ExprCat& e = ECAT[k];
                 end_leases(ci);
                 bloc_expression* x = bloc_parse_expression(c.h, (e.text + "\n").c_str());
                 if (e.kind == P_PARSE) { went_through_fault = true; ++res.faults["expression_parse_error"]; if (x) { H.fail("C15/bad-expression-accepted", e.text); bloc_free_expression(x); } else errors_set("bloc_parse_expression('" + e.text + "')", 0); break; }
@@ -304,7 +304,7 @@ struct C15 : Profile {
                 leases.push_back({x.ctx, v, want, "result of '" + e.text + "'"});
                 break; }
       case 12: { if (H.exps.empty()) break; size_t k = a % H.exps.size(); for (auto it = leases.begin(); it != leases.end();) { if (it->ctx == H.exps[k].ctx && it->what.compare(0, 6, "result") == 0) it = leases.erase(it); else ++it; } bloc_free_expression(H.exps[k].h); H.exps.erase(H.exps.begin() + k); break; }
-      case 13: { if (H.exes.size() > 8) break; int ci = pick_ctx(a); MCtx& c = H.ctxs[ci]; size_t k = b % CAT.size(); const Cat& p = CAT[k]; if (!p.usable(c)) break;
+      case 13: { if (H.exes.size() > 8) break; int ci = pick_ctx(a); MCtx& c = H.ctxs[ci]; std::vector<size_t> us; for (size_t i = 0; i < CAT.size(); ++i) if (CAT[i].usable(c)) us.push_back(i); if (us.empty()) break; /* programs that need a function or a table the context has are picked half of the time when there are any */ std::vector<size_t> dep; for (size_t i : us) if (!CAT[i].usable(MCtx())) dep.push_back(i); size_t k = (!dep.empty() && (b / 7) % 2 == 0) ? dep[b % dep.size()] : us[b % us.size()]; const Cat& p = CAT[k];
                 end_leases(ci);
                 bloc_parsing_position pos = {-7, -7}; bool with_pos = c3 % 2;
                 bloc_executable* x = bloc_parse_executable(c.h, p.text.c_str(), with_pos ? &pos : nullptr);
